@@ -64,6 +64,11 @@ func New(progs [][]Call) *Sched {
 	s.started = make([]bool, n)
 	for t := range progs {
 		s.resume[t] = make(chan struct{})
+		if len(progs[t]) == 0 {
+			// a thread without calls is finished from the start: scheduling it stutters
+			s.finished[t] = true
+			continue
+		}
 		s.wg.Add(1)
 		go s.worker(t, progs[t])
 	}
@@ -161,6 +166,7 @@ func (s *Sched) Close() {
 		}
 	}
 	s.wg.Wait()
+	s.cur = -1
 }
 
 // IsAbort reports whether a recovered value is the scheduler's unwinding panic.
